@@ -1,0 +1,13 @@
+//go:build verif
+
+package qos
+
+import "github.com/cilium/ebpf"
+
+// VerifInjectMaps installs the eBPF map handles that Start() would take from the loaded
+// collection (qos_egress, qos_ingress, qos_stats_map), so that the verification harness can let
+// the unmodified manager write into real kernel maps without attaching TC programs to an interface.
+// Injection point only: no behaviour.
+func (m *Manager) VerifInjectMaps(egress, ingress, stats *ebpf.Map) {
+	m.qosEgress, m.qosIngress, m.qosStatsMap = egress, ingress, stats
+}
